@@ -446,7 +446,7 @@ def run_tree_case(ctx, index: int, *, salt="tree"):
 # ---------------------------------------------------------------------------------------------
 
 
-def gen_timing_project(rng):
+def gen_timing_project(rng, const: bool = False):
     """Like `buildkit.gen_amend_timing_project`, shaped so that the decisive interleaving (the
     consumer starts, the producer stops, a filler starts, another filler stops, the consumer amends)
     is frequent under a random schedule with five jobs: a quick producer, a slow consumer, 4-5 short
@@ -458,7 +458,13 @@ def gen_timing_project(rng):
     plan = [A.static("src/a.txt", "src/b.txt")]
     scripts = {}
     prod = f"make f -n{pn}"
-    scripts[prod] = [A.read_declared(), *[A.nop() for _ in range(pn)], A.write_declared()]
+    if const:
+        # a tool that rewrites its output in place and ends with the same content whatever it read: a rerun
+        # reproduces an identical file, and a reader in between sees the partial one
+        scripts[prod] = [A.read_declared(), *[A.nop() for _ in range(pn)], A.write("out/f.txt", "partial\n"), A.nop(),
+                         A.write("out/f.txt", "constant content\n")]
+    else:
+        scripts[prod] = [A.read_declared(), *[A.nop() for _ in range(pn)], A.write_declared()]
     cons = f"scan f -n{cn}"
     scripts[cons] = [A.read_declared(), A.read("out/f.txt", required=False), *[A.nop() for _ in range(cn)],
                      A.amend(inp=["out/f.txt"]), A.write_declared()]
@@ -472,7 +478,8 @@ def gen_timing_project(rng):
     plan.extend(steps)
     scripts["./plan.py"] = plan
     project = Project(scripts=scripts, files={"src/a.txt": "a\n", "src/b.txt": "b\n", "plan.py": plan_file(plan)})
-    return project, {"nfill": nfill, "producer": prod, "consumer": cons}
+    return project, {"nfill": nfill, "producer": prod, "consumer": cons, "const": const,
+                     "partial_gate": 2 + pn if const else -1}
 
 
 class TimingSchedule:
@@ -482,15 +489,18 @@ class TimingSchedule:
     does the consumer amend.  A schedule can only choose among the gates that are waiting, so the
     plan is a preference: when only gates that should wait are waiting, the oldest is released."""
 
-    def __init__(self, prod: str, cons: str, x: str, y: str, seed: int):
+    def __init__(self, prod: str, cons: str, x: str, y: str, seed: int, partial_gate: int = -1):
         import random as _random
 
         self.prod, self.cons, self.x, self.y = prod, cons, x, y
+        self.partial_gate = partial_gate  # the producer's gate whose release writes the partial file (-1: none)
         self.done: set = set()
         self.rng = _random.Random(seed)
 
     def _phase(self) -> int:
         d = self.done
+        if self.partial_gate >= 0 and ("step", self.prod, self.partial_gate) not in d:
+            return -1  # the producer has not written the partial file yet
         if ("step", self.cons, 2) not in d:
             return 0  # the consumer has not read the old file yet (gates: read_declared, its one input, the file)
         if ("exit", self.prod) not in d or ("shash2", self.prod) not in d:
@@ -508,10 +518,16 @@ class TimingSchedule:
         if label == self.cons:
             if kind == "step" and idx >= 3 and phase < 4:
                 return 8  # the consumer waits (between its read and its amend) for the others
+            if kind == "step" and idx >= 2 and phase < 0:
+                return 8  # ... and does not read before the partial file is there
             return 0 if phase in (0, 4) else 5
         if label == self.prod:
+            if phase == -1:
+                return 0
             if phase == 0:
-                return 7 if kind in ("step", "exit") else 2  # the producer may start, not write, before the read
+                if kind == "step" and idx <= self.partial_gate:
+                    return 2
+                return 7 if kind in ("step", "exit") else 2  # the producer may start, not finish writing, before the read
             return 1 if phase == 1 else 5
         if label == self.y:
             if phase < 3 and kind == "exit":
@@ -542,7 +558,7 @@ def run_timing_case(ctx, index: int, *, salt="timing"):
     from simdirector import plan_file
 
     r = ctx.rng(salt, index)
-    full, info = gen_timing_project(r)
+    full, info = gen_timing_project(r, const=index % 4 == 2)
     cons = info["consumer"]
     plan = full.scripts["./plan.py"]
     # the project before the edit: without the consumer, and with the old source text
@@ -560,7 +576,7 @@ def run_timing_case(ctx, index: int, *, salt="timing"):
     directed = index % 2 == 0
     spec = ("directed", x, y) if directed else ("random", r.randrange(1 << 30))
     njob = 7 if directed else 5
-    sched = (TimingSchedule(info["producer"], cons, x, y, r.randrange(1 << 30)) if directed
+    sched = (TimingSchedule(info["producer"], cons, x, y, r.randrange(1 << 30), info["partial_gate"]) if directed
              else buildkit.make_schedule(spec))
     events = [("build", {"njob": r.randint(1, 2)}), ("edits", projgen._edits_between(before, final)),
               ("build", {"njob": njob, "schedule": sched})]
